@@ -31,15 +31,7 @@ class TypeNormalizer:
     def __call__(self, t, fn):
         from .dependent import DependentType
 
-        if isinstance(t, typing.ForwardRef):
-            # A string nested in a typing construct, e.g. Optional["A"]
-            t = t.__forward_arg__
-
-        if isinstance(t, str):
-            t = eval(t, getattr(fn, "__globals__", {}))
-
-        if isinstance(t, typing._AnnotatedAlias):
-            t = t.__origin__
+        t = _plain_form(t, fn)
 
         if t is None:
             t = type(None)
@@ -56,7 +48,7 @@ class TypeNormalizer:
         if UnionType and isinstance(t, UnionType):
             return self(t.__args__, fn)
         elif origin is type:
-            return type[_any_as_object(t.__args__[0])]
+            return type[_any_as_object(t.__args__[0], fn)]
         elif origin and getattr(t, "__args__", None) is None:
             return t
         elif origin is not None:
@@ -81,13 +73,31 @@ class TypeNormalizer:
             return t
 
 
-def _any_as_object(t):
-    """Replace typing.Any by object at any depth of a parametrized generic."""
+def _plain_form(t, fn):
+    """Strip what does not change the meaning of an annotation.
+
+    A string (also one that typing wrapped in a ForwardRef, as in
+    Optional["A"]) stands for the type it names, Annotated[T, ...] for T.
+    """
+    while True:
+        if isinstance(t, typing.ForwardRef):
+            t = t.__forward_arg__
+        if isinstance(t, str):
+            t = eval(t, getattr(fn, "__globals__", {}))
+        elif isinstance(t, typing._AnnotatedAlias):
+            t = t.__origin__
+        else:
+            return t
+
+
+def _any_as_object(t, fn=None):
+    """The argument of type[...]: typing.Any is object at any depth."""
+    t = _plain_form(t, fn)
     if t is typing.Any:
         return object
     args = getattr(t, "__args__", None)
     if args and isinstance(get_origin(t), type):
-        new_args = tuple(_any_as_object(arg) for arg in args)
+        new_args = tuple(_any_as_object(arg, fn) for arg in args)
         if new_args != args:
             return get_origin(t)[new_args]
     return t
